@@ -514,7 +514,7 @@ def enumerate_pairs(tier):
 
 
 FACETS = [
-    Facet("random-crash-sequences", check, strategy=lambda tier: scenario_s(), budget={"quick": 400, "thorough": 5000},
+    Facet("random-crash-sequences", check, strategy=lambda tier: scenario_s(), budget={"quick": 800, "thorough": 5000},
           shards={"quick": 10, "thorough": 16}, min_nontrivial={"quick": 80, "thorough": 1000}, case_timeout=300),
     Facet("no-crash-multi-worker", check, strategy=lambda tier: st.tuples(scenario_s(max_crashes=0), st.sampled_from([0, 0, 33, 45, 50, 65]),
                                                                           st.sampled_from([2, 2, 3])).map(_many_zips),
